@@ -32,7 +32,8 @@ func c08Alphabet(reduced bool) []amgr.Op {
 	}
 	a = append(a, amgr.Op{K: "lookup_all"}, amgr.Op{K: "unlock"}, amgr.Op{K: "lock"})
 	if !reduced {
-		for _, o := range []amgr.Op{{K: "new_watch_account"}, {K: "import_script", N: 1}, {K: "next_ext", A: 1, N: 1}, {K: "extend_int", N: 1}} {
+		a = append(a, amgr.Op{K: "invalidate_cache"}, amgr.Op{K: "invalidate_cache", A: 1})
+		for _, o := range []amgr.Op{{K: "new_watch_account"}, {K: "import_script", N: 1}, {K: "next_ext", A: 1, N: 1}, {K: "extend_int", N: 1}, {K: "rename", A: 1, N: 2}, {K: "next_int", A: 1, N: 1}} {
 			a = append(a, o)
 			r := o
 			r.Rollback = true
@@ -188,6 +189,7 @@ func runC08(args []string) {
 	} else {
 		cfgs = append(cfgs, cfg{"A", waddrmgr.KeyScopeBIP0084, 2, c08Alphabet(false), [][]amgr.Op{nil, baseUsed}})
 		cfgs = append(cfgs, cfg{"A", waddrmgr.KeyScopeBIP0084, 3, c08Alphabet(true), [][]amgr.Op{{{K: "unlock"}}}})
+		cfgs = append(cfgs, cfg{"A", waddrmgr.KeyScopeBIP0049Plus, 2, c08Alphabet(false), [][]amgr.Op{{{K: "unlock"}, {K: "new_watch_account"}, {K: "next_ext", A: 1, N: 1}}}})
 	}
 	var mu sync.Mutex
 	evals, execs, nontrivial, q3 := 0, 0, 0, 0
